@@ -192,6 +192,22 @@ def mustfacts(fn, kill=None, alias=True, passed=False):
     def gen(ev):
         return ()
 
+    # Conditional definitions.  `p = NULL; if (C) p = f(); ...; if (p) use` — the use is under C although no branch on C dominates it.
+    # A local assigned a non-constant value is remembered with the facts that held at that assignment ("@cond|p|[facts]"); where such a
+    # state meets one in which the local is known to be NULL/0 the memory survives the join; a later test that the local is non-NULL
+    # re-establishes those facts (minus whatever was killed in between).
+    import ast as _ast
+
+    def _cond_items(st):
+        return [f for f in st if f[0].startswith("@cond|")]
+
+    def _cond_parse(f):
+        _tag, v, body = f[0].split("|", 2)
+        return v, frozenset(_ast.literal_eval(body))
+
+    def _cond_make(v, G):
+        return ("@cond|%s|%r" % (v, sorted(G)), True)
+
     def transfer(st, ev):
         dead = set()
         lhs = ev.lhs
@@ -199,12 +215,48 @@ def mustfacts(fn, kill=None, alias=True, passed=False):
         if passed and lhs is not None and strip(lhs)["k"] != "var":
             lhs_s = None
         for f in st:
+            if f[0].startswith("@cond|"):
+                continue
             if lhs_s is not None and lm._mentions(f[0], lhs_s):
                 dead.add(f)
             elif kill and kill(f, ev):
                 dead.add(f)
+        if ev.kind == "call":
+            for a_ in ev.args:
+                sa_ = strip(a_)
+                if sa_ is not None and sa_["k"] == "un" and sa_["op"] == "&" and strip(sa_["e"]) is not None and strip(sa_["e"])["k"] == "var":
+                    vn_ = strip(sa_["e"])["name"]
+                    for f in st:
+                        if not f[0].startswith("@cond|") and (f[0] == vn_ or f[0] == "(%s == 0)" % vn_):
+                            dead.add(f)         # the callee may store through &v: what was known about v's value is gone
+        conds = _cond_items(st)
+        if conds:
+            repl = set()
+            for cf in conds:
+                v, G = _cond_parse(cf)
+                if lhs_s is not None and lhs_s == v:
+                    dead.add(cf)
+                    continue
+                G2 = frozenset(g for g in G if not ((lhs_s is not None and lm._mentions(g[0], lhs_s)) or (kill and kill(g, ev))))
+                if G2 != G:
+                    dead.add(cf)
+                    if G2:
+                        repl.add(_cond_make(v, G2))
+            st = (st - dead) | frozenset(repl)
+            dead = set()
         if dead:
             st = st - dead
+        # remember under which facts a plain local gets its value
+        if ev.kind in ("assign", "decl") and lhs is not None and strip(lhs)["k"] == "var" and strip(lhs).get("vk") in ("local", None) \
+                and (ev.kind == "decl" or ev.e.get("op") == "="):
+            vname = S(lhs)
+            if ev.rhs is not None:
+                if strip(ev.rhs)["k"] == "null" or cval(ev.rhs) == 0:
+                    st = st | frozenset([(vname, False)])
+                elif cval(ev.rhs) is None:
+                    G = frozenset(f for f in st if not f[0].startswith("@cond|") and not lm._mentions(f[0], vname))
+                    if G:
+                        st = st | frozenset([_cond_make(vname, G)])
         if lhs_s is None and lhs is not None:
             lhs_s = S(lhs)
         if alias and ev.kind in ("assign", "decl") and ev.rhs is not None and ev.kind != "incdec":
@@ -226,12 +278,42 @@ def mustfacts(fn, kill=None, alias=True, passed=False):
         if cond is None:
             return st
         if br in (True, False):
-            return st | frozenset(atoms(cond, br))
+            new = frozenset(atoms(cond, br))
+            if any((a_, not p_) in st for (a_, p_) in new):
+                return None            # the state already knows the opposite: this edge is not taken from here
+            out = st | new
+            # a local now known to be non-NULL brings back the facts of its (only non-NULL) definition
+            for (a_, p_) in new:
+                if p_ is True or (a_.startswith("(") and a_.endswith(" == 0)") and p_ is False):
+                    vn = a_ if p_ is True else a_[1:-6]
+                    for cf in _cond_items(st):
+                        v, G = _cond_parse(cf)
+                        if v == vn:
+                            out = out | G
+            return out
         if br is not None and br[0] == "case":
             return st | frozenset([("(%s == %s)" % (S(cond), br[1]), True)])
         return st
 
-    IN = fn.forward(frozenset(), transfer, edge, lambda a, b: a & b)
+    def join(a, b):
+        base = a & b
+        ca, cb = {(_cond_parse(f)[0]): _cond_parse(f)[1] for f in _cond_items(a)}, {(_cond_parse(f)[0]): _cond_parse(f)[1] for f in _cond_items(b)}
+        extra = set()
+        for v in set(ca) | set(cb):
+            if v in ca and v in cb:
+                G = ca[v] & cb[v]
+            elif v in ca and (v, False) in b:
+                G = ca[v]                # on the other side the local is NULL: "non-NULL" still means "came through that definition"
+            elif v in cb and (v, False) in a:
+                G = cb[v]
+            else:
+                continue
+            if G:
+                extra.add(_cond_make(v, G))
+        base = frozenset(f for f in base if not f[0].startswith("@cond|")) | frozenset(extra)
+        return base
+
+    IN = fn.forward(frozenset(), transfer, edge, join)
     return IN, transfer
 
 
@@ -798,3 +880,33 @@ def path_final_const(f, path, lvalue):
         if name == lvalue or (isinstance(lvalue, (set, frozenset)) and name in lvalue):
             stored, val = True, new
     return stored, val
+
+
+def assumed_one_of(asm, expr, values):
+    """The path assumptions establish expr ∈ values: a direct test of one of the values, or a disjunction of tests that only names them
+    (`(x == 0) || (x == 1)` taken true)."""
+    import re as _re
+    vals = set(values)
+    for v in vals:
+        if asm.get("(%s == %d)" % (expr, v)) is True or (v == 0 and asm.get(expr) is False):
+            return True
+    pat = _re.compile(r"^\(%s == (-?\d+)\)$" % _re.escape(expr))
+    for k, pol in asm.items():
+        if pol is not True or " || " not in k:
+            continue
+        inner = k[1:-1] if k.startswith("(") and k.endswith(")") else k
+        parts = [x.strip() for x in inner.split(" || ")]
+        ok = True
+        for part in parts:
+            m = pat.match(part)
+            if m:
+                if int(m.group(1)) not in vals:
+                    ok = False
+            elif part == "!%s" % expr:
+                if 0 not in vals:
+                    ok = False
+            else:
+                ok = False
+        if ok and parts:
+            return True
+    return False
